@@ -369,6 +369,222 @@ func check(c Case) engine.Outcome {
 	return o
 }
 
+// ---- nested expressions over scripted leaves: the model composes the documented functions ----
+
+// Expr is a combinator / decorator expression whose leaves are scripted strategies.
+type Expr struct {
+	Op   string `json:"op"` // leaf and or majority split inverse noloss stoploss
+	Leaf int    `json:"leaf,omitempty"`
+	Kids []Expr `json:"kids,omitempty"`
+}
+
+func (e Expr) String() string {
+	if e.Op == "leaf" {
+		return fmt.Sprint("s", e.Leaf)
+	}
+	out := e.Op + "("
+	for i, k := range e.Kids {
+		if i > 0 {
+			out += ","
+		}
+		out += k.String()
+	}
+	return out + ")"
+}
+
+// ExprCase is a nested expression with its leaf words and closing prices.
+type ExprCase struct {
+	Expr   Expr      `json:"expr"`
+	Words  [][]int   `json:"words"`
+	Closes []float64 `json:"closes"`
+	Pct    float64   `json:"pct"`
+}
+
+func genExpr(t *rapid.T, leaves, depth int) Expr {
+	if depth <= 0 || rapid.IntRange(0, 3).Draw(t, "stop") == 0 {
+		return Expr{Op: "leaf", Leaf: rapid.IntRange(0, leaves-1).Draw(t, "leaf")}
+	}
+	op := rapid.SampledFrom([]string{"and", "and", "or", "majority", "split", "inverse", "noloss", "stoploss"}).Draw(t, "op")
+	e := Expr{Op: op}
+	n := 1
+	switch op {
+	case "split":
+		n = 2
+	case "and", "or", "majority":
+		n = rapid.IntRange(1, 3).Draw(t, "k")
+	}
+	for i := 0; i < n; i++ {
+		e.Kids = append(e.Kids, genExpr(t, leaves, depth-1))
+	}
+	return e
+}
+
+func (e Expr) build(leaves []strategy.Strategy, pct float64) strategy.Strategy {
+	if e.Op == "leaf" {
+		return leaves[e.Leaf]
+	}
+	kids := make([]strategy.Strategy, len(e.Kids))
+	for i, k := range e.Kids {
+		kids[i] = k.build(leaves, pct)
+	}
+	switch e.Op {
+	case "and":
+		return strategy.NewAndStrategy("and", kids...)
+	case "or":
+		return strategy.NewOrStrategy("or", kids...)
+	case "majority":
+		return strategy.NewMajorityStrategyWith("majority", kids)
+	case "split":
+		return strategy.NewSplitStrategy(kids[0], kids[1])
+	case "inverse":
+		return decorator.NewInverseStrategy(kids[0])
+	case "noloss":
+		return decorator.NewNoLossStrategy(kids[0])
+	}
+	return decorator.NewStopLossStrategy(kids[0], pct)
+}
+
+// model evaluates the documented function of the expression on slices.
+func (e Expr) model(words [][]strategy.Action, cl []float64, pct float64) []strategy.Action {
+	if e.Op == "leaf" {
+		return words[e.Leaf]
+	}
+	kids := make([][]strategy.Action, len(e.Kids))
+	for i, k := range e.Kids {
+		kids[i] = k.model(words, cl, pct)
+	}
+	n := len(cl)
+	out := make([]strategy.Action, n)
+	switch e.Op {
+	case "inverse":
+		return invertModel(kids[0])
+	case "noloss":
+		return noLossModel(kids[0], cl)
+	case "stoploss":
+		return stopLossModel(kids[0], cl, pct)
+	case "split":
+		for i := 0; i < n; i++ {
+			if kids[0][i] == B && kids[1][i] != S {
+				out[i] = B
+			} else if kids[1][i] == S && kids[0][i] != B {
+				out[i] = S
+			}
+		}
+		return out
+	}
+	den := make([][]strategy.Action, len(kids))
+	for i := range kids {
+		den[i] = stub.Denormalize(kids[i])
+	}
+	k := len(kids)
+	for i := 0; i < n; i++ {
+		b, h, s := 0, 0, 0
+		for _, d := range den {
+			switch d[i] {
+			case B:
+				b++
+			case S:
+				s++
+			default:
+				h++
+			}
+		}
+		switch e.Op {
+		case "and":
+			if s == k {
+				out[i] = S
+			} else if b == k {
+				out[i] = B
+			}
+		case "or":
+			if s > 0 && b == 0 {
+				out[i] = S
+			} else if b > 0 && s == 0 {
+				out[i] = B
+			}
+		case "majority":
+			if s > b && s > h {
+				out[i] = S
+			} else if b > s && b > h {
+				out[i] = B
+			}
+		}
+	}
+	return out
+}
+
+func (e Expr) depth() int {
+	d := 0
+	for _, k := range e.Kids {
+		if kd := k.depth() + 1; kd > d {
+			d = kd
+		}
+	}
+	return d
+}
+
+func exprProp() engine.AnyProp {
+	return engine.Prop[ExprCase]{ID: "C07", Subject: "NestedExpressions",
+		Gen: func(t *rapid.T) ExprCase {
+			n := rapid.IntRange(0, 30).Draw(t, "n")
+			leaves := rapid.IntRange(1, 4).Draw(t, "leaves")
+			c := ExprCase{Closes: make([]float64, n), Pct: float64(rapid.IntRange(0, 31).Draw(t, "pct")) / 64}
+			for i := 0; i < leaves; i++ {
+				w := make([]int, n)
+				dens := rapid.IntRange(1, 3).Draw(t, "dens")
+				for j := range w {
+					if rapid.IntRange(0, 3).Draw(t, "act") < dens {
+						w[j] = rapid.SampledFrom([]int{-1, 1}).Draw(t, "a")
+					}
+				}
+				c.Words = append(c.Words, w)
+			}
+			x := float64(rapid.IntRange(40, 400).Draw(t, "c0"))
+			for i := range c.Closes {
+				x += float64(rapid.IntRange(-40, 40).Draw(t, "d")) / 4
+				if x < 1 {
+					x = 1
+				}
+				c.Closes[i] = x
+			}
+			c.Expr = genExpr(t, leaves, 3)
+			if c.Expr.Op == "leaf" {
+				c.Expr = Expr{Op: "and", Kids: []Expr{c.Expr, genExpr(t, leaves, 2)}}
+			}
+			return c
+		},
+		Check: func(c ExprCase) engine.Outcome {
+			var o engine.Outcome
+			words := make([][]strategy.Action, len(c.Words))
+			leaves := make([]strategy.Strategy, len(c.Words))
+			for i := range words {
+				words[i] = acts(c.Words[i])
+				leaves[i] = &stub.Scripted{Label: fmt.Sprint("s", i), Word: words[i]}
+			}
+			got, msg := run(c.Expr.build(leaves, c.Pct), stub.SnapshotsFromCloses(c.Closes), 0)
+			if msg != "" {
+				o.Failf("%s: %s", c.Expr, msg)
+				return o
+			}
+			want := c.Expr.model(words, c.Closes, c.Pct)
+			if !eq(got, want) {
+				o.Failf("%s over %v on closes %v = %v, the documented functions composed give %v", c.Expr, c.Words, c.Closes, got, want)
+				return o
+			}
+			nonHold := 0
+			for _, a := range want {
+				if a != H {
+					nonHold++
+				}
+			}
+			o.NonTrivial = c.Expr.depth() >= 2 && nonHold > 0
+			o.Class(fmt.Sprintf("depth_%d", c.Expr.depth()))
+			o.Class("root:" + c.Expr.Op)
+			o.Key = fmt.Sprint(c.Expr, c.Words, c.Closes, c.Pct)
+			return o
+		}}
+}
+
 // ---- MACD-RSI: concrete sub-strategies, combined by the harness from their own streams ----
 
 type macdRsiCase struct {
@@ -426,7 +642,7 @@ func macdRsiProp() engine.AnyProp {
 }
 
 func props() []engine.AnyProp {
-	return []engine.AnyProp{engine.Prop[Case]{ID: "C07", Subject: "Combinators+Decorators", Gen: genCase, Check: check}, macdRsiProp()}
+	return []engine.AnyProp{engine.Prop[Case]{ID: "C07", Subject: "Combinators+Decorators", Gen: genCase, Check: check}, exprProp(), macdRsiProp()}
 }
 
 func TestC07(t *testing.T) { engine.RunAll(t, props(), false) }
